@@ -1,8 +1,10 @@
 package zzverif
 
 import (
+	"context"
 	"encoding/json"
 	"fmt"
+	"github.com/ory/keto/internal/driver/config"
 	"net/url"
 	"testing"
 
@@ -22,6 +24,9 @@ type expandCase struct {
 	Depth  int      `json:"d"`
 	Wide   int      `json:"wn"`
 	Faults bool     `json:"faults"`
+	// Gone: the relationships are written while the namespace "gone" is configured; it is removed from the configuration
+	// before the expand (the relationships stay stored)
+	Gone bool `json:"gone"`
 }
 
 type expandIn struct {
@@ -120,7 +125,17 @@ func famExpand(t *testing.T) {
 				}
 			}
 		}
+		if c.Gone {
+			if err := e.reg.Config(context.Background()).Set(config.KeyNamespaces, []*namespace.Namespace{{Name: "n"}, {Name: "gone"}}); err != nil {
+				t.Fatal(err)
+			}
+		}
 		writeOrdered(t, e.reg, stored)
+		if c.Gone {
+			if err := e.reg.Config(context.Background()).Set(config.KeyNamespaces, []*namespace.Namespace{{Name: "n"}}); err != nil {
+				t.Fatal(err)
+			}
+		}
 		res := map[string]any{"id": c.ID}
 		root := &ketoapi.SubjectSet{Namespace: "n", Object: "s", Relation: "r"}
 		// engine
